@@ -186,9 +186,10 @@ def configs(tier):
     tg = targets()
     core = [t for t in tg if ("tp=tcp" in t and "target=b" not in t) or ("tp=ux," in t and "target=b,big=1" in t) or
             ("tp=uxf" in t and "target=srv,big=1" in t) or ("tp=tls" in t and ("names=70" in t or "san5" in t or "san70" in t))]
+    deep = [t for t in core if "tp=tcp,target=a" in t or ("san5" in t and "target=a" in t) or ("names=70" in t and "target=srv" in t)]
     # (i) inputs: every session of one raw client, served when the traffic is over (one schedule per session)
     for t in tg:
-        L = (2 if t in core else 1) if q else (3 if t in core else 2)
+        L = (2 if t in core else 1) if q else (3 if t in deep else 2)
         c.append(("%s,c0=r*%d,alpha=%s,rel=99" % (t, L, ALPHA), 0, "asan"))
     # ... and released in the middle of the traffic (all orders the blocked tasks allow)
     mid = [t for t in core if "tp=tcp" in t or "san5" in t or ("names=70" in t and "target=srv" in t)]
@@ -196,7 +197,7 @@ def configs(tier):
         c.append(("%s,c0=r*%d,alpha=%s,rel=3" % (t, 1 if q else 2, ALPHA), 0, "asan"))
     # every session of the client library
     for t in (core if q else tg):
-        c.append(("%s,c0=x*%d,rel=99" % (t, 2 if q else 3), 0, "asan"))
+        c.append(("%s,c0=x*%d,rel=99" % (t, 2 if q or t not in core else 3), 0, "asan"))
     # (ii) schedules: concurrent sessions x interleavings x EAGAIN answers
     s5 = "tp=tls,target=a,big=0,scert=%s,ccert=%s" % (cert("san5"), cert("small"))
     rsa = "tp=tls,target=srv,big=1,names=70,scert=%s,ccert=%s" % (cert("rsa"), cert("rsa"))
@@ -211,17 +212,17 @@ def configs(tier):
     else:
         sched = [
             ("tp=tcp,target=a,c0=r:ga,rel=0", 2), ("tp=tcp,target=a,c0=r:ga,rel=3,pumpn=256", 2),
-            ("tp=tcp,target=a,c0=r:Xg,rel=2,svc=none", 2), ("tp=tcp,target=srv,c0=x:ag,c1=r:t,rel=0", 1),
-            ("tp=tcp,target=b,c0=r:ng,rel=3", 2), ("tp=ux,target=srv,c0=r:gg,rel=0,pumpn=256", 2),
+            ("tp=tcp,target=a,c0=r:Xg,rel=2,svc=none", 1), ("tp=tcp,target=srv,c0=x:ag,c1=r:t,rel=0", 1),
+            ("tp=tcp,target=b,c0=r:ng,rel=3", 1), ("tp=ux,target=srv,big=0,c0=r:gg,rel=0,pumpn=256", 1),
             ("tp=ux,target=b,big=1,c0=r:g,c1=r:k,c2=r:x,rel=99", 1), ("tp=tcp,target=a,c0=r:g,c1=r:m,c2=x:g,rel=3", 1),
-            ("tp=tcp,target=a,c0=r:ga,c1=r:kg,c2=r:xn,rel=3", 0), ("tp=tcp,target=a,c0=r:g,c1=r:k,rel=3", 1),
-            (s5 + ",c0=r:gl,rel=3", 2), (s5 + ",c0=x:kg,c1=r:zg,rel=0", 1),
+            ("tp=tcp,target=a,c0=r:ga,c1=r:kg,c2=r:xn,rel=99", 0), ("tp=tcp,target=a,c0=r:g,c1=r:k,rel=3", 1),
+            (s5 + ",c0=r:gl,rel=3", 1), (s5 + ",c0=x:kg,c1=r:zg,rel=0", 1),
             (rsa + ",c0=r:g,c1=r:b,rel=99", 1), (rsa + ",c0=r:bg,rel=3,pumpn=256", 1),
         ]
         c += [(p, d, "asan") for p, d in sched]
-        # the deepest level without the sanitizer (three to four times cheaper per execution)
-        c += [("tp=tcp,target=a,c0=r:g,rel=0", 3, "plain"), ("tp=tcp,target=a,c0=r:g,c1=r:g,c2=r:g,rel=99", 2, "plain"),
-              ("tp=tcp,target=a,c0=r:g,c1=r:k,rel=3", 2, "plain")]
+        # the deepest levels without the sanitizer (an order of magnitude cheaper per execution)
+        c += [("tp=tcp,target=a,c0=r:g,rel=0", 3, "plain"), ("tp=tcp,target=a,c0=r:g,c1=r:k,rel=99", 2, "plain"),
+              ("tp=tcp,target=a,c0=r:g,c1=r:g,c2=r:g,rel=99", 2, "plain")]
     return c
 
 
@@ -255,7 +256,13 @@ def run(chk, tier, jobs, deadline):
     per_cfg, samples = [], []
     completed_all = True
     try:
-        for params, bound, variant in configs(tier):
+        cfgs = configs(tier)
+        if os.environ.get("C14_CONFIG_FILTER"):
+            # development aid (mutant demos): run only the configurations matching the regular expression
+            cfgs = [c for c in cfgs if re.search(os.environ["C14_CONFIG_FILTER"], c[0])]
+            chk.assumptions.append("C14_CONFIG_FILTER=%s: only %d configurations of the tier were run" %
+                                   (os.environ["C14_CONFIG_FILTER"], len(cfgs)))
+        for params, bound, variant in cfgs:
             if variant not in exes:
                 exes[variant] = harnesses.build_explorer_harness("h_ctl", variant=variant, **BUILD_KW)
             left = t_end - time.time()
